@@ -142,6 +142,16 @@ Theorem C20_held_coins_untouched :
 Proof. exact send_locked_bank_view. Qed.
 Print Assumptions C20_held_coins_untouched.
 
+(* "and not before": the (modelled) bank lets an account transfer at block time [now] at most
+   its balance minus LockedCoins at [now], which by the theorems above contains the whole
+   reward until now + len *)
+Theorem C20_locked_coins_cannot_be_spent :
+  forall e s now a c s',
+  step e s (Spend now a c) = Ok s' tt ->
+  forall d, 0 < amount_of d c -> amount_of d c <= bal s a d - locked s a now d.
+Proof. exact spend_within_unlocked. Qed.
+Print Assumptions C20_locked_coins_cannot_be_spent.
+
 (** ** Clause 4: refusals. *)
 
 Theorem C20_refused_account_kinds :
@@ -167,6 +177,52 @@ Theorem C20_refused_changes_nothing :
   forall e s o, (forall s' u, step e s o <> Ok s' u) -> step' e s o = s.
 Proof. exact failed_changes_nothing. Qed.
 Print Assumptions C20_refused_changes_nothing.
+
+(** ** The payday rule (GetPeriodLength), for every block time (proleptic Gregorian calendar, UTC). *)
+
+(* a lock-up of one or more months is strictly positive (more than 28 days per month beyond the first) *)
+Theorem C20_period_length_positive :
+  forall now months len, 1 <= months ->
+  get_period_length now months = Some len -> 28 * 86400 * (months - 1) < len.
+Proof. exact period_length_pos. Qed.
+Print Assumptions C20_period_length_positive.
+
+(* it ends at 14:00:00 UTC on the 15th of the month [months] ahead when the claim is made
+   before the 15th 14:00, otherwise on the 1st of the month after that *)
+Theorem C20_period_end_payday :
+  forall now months len y m d, months <> 0 ->
+  get_period_length now months = Some len ->
+  civil_from_days (now / 86400) = (y, m, d) ->
+  let early := (d <? 15) || ((d =? 15) && ((now mod 86400) / 3600 <? 14)) in
+  let mi := 12 * y + (m - 1) + months + (if early then 0 else 1) in
+  (now + len) mod 86400 = 14 * 3600 /\
+  civil_from_days ((now + len) / 86400) = (mi / 12, mi mod 12 + 1, if early then 15 else 1).
+Proof. exact period_end_payday. Qed.
+Print Assumptions C20_period_end_payday.
+
+(* the model's calendar: civil_from_days inverts days_from_civil on every day number *)
+Theorem C20_calendar_roundtrip :
+  forall z y m d, civil_from_days z = (y, m, d) ->
+  days_from_civil y m d = z /\ 1 <= m <= 12 /\ 1 <= d <= 31.
+Proof. exact civil_roundtrip. Qed.
+Print Assumptions C20_calendar_roundtrip.
+
+(* zero months: no lock-up; claims always use a non-negative length, so the guard of
+   C20_all_histories_well_formed holds for every claim *)
+Theorem C20_claim_length_nonneg :
+  (forall now, get_period_length now 0 = Some 0) /\
+  (forall now r c months, op_ok (Claim now r c months) = true).
+Proof. split; [exact period_length_zero|exact claim_op_ok]. Qed.
+Print Assumptions C20_claim_length_nonneg.
+
+Example C20_payday_examples :
+  (* 2024-01-15 13:59:59, one month -> 2024-02-15 14:00:00 *)
+  get_period_length 1705327199 1 = Some (1708005600 - 1705327199) /\
+  (* 2024-01-15 14:00:00, one month -> 2024-03-01 14:00:00 *)
+  get_period_length 1705327200 1 = Some (1709301600 - 1705327200) /\
+  (* 2023-12-31 23:59:59, twelve months -> 2025-01-01 14:00:00 *)
+  get_period_length 1704067199 12 = Some (1735740000 - 1704067199).
+Proof. vm_compute. repeat split; reflexivity. Qed.
 
 (** ** Non-vacuity and necessity of the guards. *)
 
